@@ -156,13 +156,13 @@ func (c *Ctx) load(st *State, l *Loc) *Term {
 		u := l.Elem.Underlying().(*types.Struct)
 		var fs []*Term
 		for i := 0; i < u.NumFields(); i++ {
-			fs = append(fs, tSelect(c.heapGet(st, c.fieldArrayName(l.Elem, i)), l.Ref))
+			fs = append(fs, c.sel(c.heapGet(st, c.fieldArrayName(l.Elem, i)), l.Ref))
 		}
 		return c.mkStruct(l.Elem, fs)
 	case LCell:
 		t := c.heapGet(st, l.Name)
 		for _, i := range l.Idx {
-			t = tSelect(t, i)
+			t = c.sel(t, i)
 		}
 		return t
 	case LProj:
@@ -181,7 +181,7 @@ func (c *Ctx) store(st *State, l *Loc, v *Term) {
 		u := l.Elem.Underlying().(*types.Struct)
 		for i := 0; i < u.NumFields(); i++ {
 			n := c.fieldArrayName(l.Elem, i)
-			c.heapSet(st, n, tStore(c.heapGet(st, n), l.Ref, c.structField(l.Elem, v, i)))
+			c.heapSet(st, n, c.sto(c.heapGet(st, n), l.Ref, c.structField(l.Elem, v, i)))
 		}
 	case LCell:
 		root := c.heapGet(st, l.Name)
@@ -189,10 +189,10 @@ func (c *Ctx) store(st *State, l *Loc, v *Term) {
 		case 0:
 			c.heapSet(st, l.Name, v)
 		case 1:
-			c.heapSet(st, l.Name, tStore(root, l.Idx[0], v))
+			c.heapSet(st, l.Name, c.sto(root, l.Idx[0], v))
 		case 2:
-			inner := tSelect(root, l.Idx[0])
-			c.heapSet(st, l.Name, tStore(root, l.Idx[0], tStore(inner, l.Idx[1], v)))
+			inner := c.sel(root, l.Idx[0])
+			c.heapSet(st, l.Name, c.sto(root, l.Idx[0], c.sto(inner, l.Idx[1], v)))
 		default:
 			panic("store: too many indices")
 		}
@@ -257,6 +257,8 @@ func (c *Ctx) valTerm(v Val, what string) *Term {
 func (c *Ctx) allocRef(st *State, g *Term, hint string) *Term {
 	a := c.heapGet(st, c.allocName())
 	r := c.defineAlways(hint, tAdd(a, intLit(1)))
+	c.allocOrd++
+	c.allocOf[r.S] = c.allocOrd
 	c.heapSet(st, c.allocName(), r)
 	return r
 }
@@ -271,6 +273,7 @@ func (c *Ctx) freshVal(st *State, g *Term, t types.Type, hint string) Val {
 		return Val{Tuple: vs}
 	}
 	v := c.fresh(hint, c.sortOf(t))
+	c.bornNow(v)
 	c.assumeG(g, c.typeConstraint(t, v))
 	c.assumeAllocated(st, g, t, v)
 	return tv(v)
@@ -284,6 +287,26 @@ func (c *Ctx) assumeAllocated(st *State, g *Term, t types.Type, v *Term) {
 	case *types.Slice:
 		c.assumeG(g, tLe(mk(SInt, "(s.arr "+v.S+")"), c.heapGet(st, c.allocName())))
 	}
+}
+
+// assumeLoadedRef: a reference read from heap array `name` in state st was allocated before; if the array is still
+// the function-entry version, before the function started.
+func (c *Ctx) assumeLoadedRef(st *State, name string, t types.Type, v *Term) {
+	var lhs *Term
+	switch t.Underlying().(type) {
+	case *types.Pointer, *types.Map:
+		lhs = v
+	case *types.Slice:
+		lhs = mk(SInt, "(s.arr "+v.S+")")
+	default:
+		return
+	}
+	bound := c.heapGet(st, c.allocName())
+	if cur, ok := st.heap[name]; !ok || cur.S == sanitize(name)+"@0" {
+		bound = mk(SInt, sanitize("$alloc")+"@0")
+		c.declare(bound.S, SInt)
+	}
+	c.assume(mk(SBool, fmt.Sprintf("(and (>= %s 0) (<= %s %s))", lhs.S, lhs.S, bound.S)))
 }
 
 // ---------- constants ----------
@@ -352,7 +375,7 @@ func (fr *Frame) get(v ssa.Value) Val {
 	case *ssa.Const:
 		return c.constVal(x)
 	case *ssa.Global:
-		return Val{Loc: &Loc{Kind: LCell, Name: c.heapName("glob!"+sanitize(x.Pkg.Pkg.Path()+"."+x.Name()), c.sortOf(x.Type().(*types.Pointer).Elem())), Elem: x.Type().(*types.Pointer).Elem()}}
+		return Val{Loc: c.globalLoc(x)}
 	case *ssa.Function:
 		return Val{Clo: &Closure{Fn: x}}
 	case *ssa.Builtin:
